@@ -65,9 +65,10 @@ Next ==
     \/ n = 0 /\ \E dd \in Dims, rr \in RPairs, k \in CondKinds, m \in Modes, bm \in {"given", "none"}, s \in Offs :
                    /\ (IsIdCond(k) => bm = "none")
                    /\ ANewCond(k, m, bm, dd \div 10, dd % 10, rr \div 10, s, s)
-    \/ n = 1 /\ \E rr \in RPairs, pk \in {"S", "SLD"} :
+    \/ n = 1 /\ \E rr \in RPairs, pk \in {"PDF:S", "PDF:SLD", "DiagPDF:S"} :
                    /\ rr \div 10 = CR(c1)
-                   /\ ANewPdf("PDF", pk, IF NeedsJointQ THEN CDx(c1) + CDy(c1) ELSE CDx(c1), rr % 10, 1)
+                   /\ ANewPdf(IF pk = "DiagPDF:S" THEN "DiagPDF" ELSE "PDF", IF pk = "PDF:SLD" THEN "SLD" ELSE "S",
+                              IF NeedsJointQ THEN CDx(c1) + CDy(c1) ELSE CDx(c1), rr % 10, 1)
     \/ n = 2 /\ Op
     \/ n = 3 /\ F4
     \/ n = 4 /\ F5
